@@ -39,8 +39,9 @@ type lcAct struct {
 }
 
 type lcInput struct {
-	MaxH  int       `json:"maxh"`
-	Paths [][]lcAct `json:"paths"`
+	MaxH   int       `json:"maxh"`
+	Shapes []string  `json:"shapes"` // per block 1..MaxH: "xfer" (digit transfer + random transfers), "empty" (no transaction), "fail" (one failing transfer: empty write set)
+	Paths  [][]lcAct `json:"paths"`
 }
 
 type lcObs struct {
@@ -66,6 +67,7 @@ type lcRef struct {
 	hash      []common.Uint256
 	balA      []uint64
 	balB      []uint64
+	nEvents   []int
 	proofs    map[[2]int][]common.Uint256 // (leaf g, tree of height h) -> audit path
 	blockRoot []common.Uint256
 }
@@ -86,6 +88,7 @@ type lcWorld struct {
 	crashEv  int // index of the hook event (in this operation) at which the image is taken; -1 none
 	crashDir string
 	rng      *rand.Rand
+	shapes   []string
 }
 
 func lcCopyDir(src, dst string) {
@@ -137,17 +140,11 @@ func (w *lcWorld) ontBalance(l *LedgerStoreImp, addr common.Address) uint64 {
 	return x
 }
 
-func (w *lcWorld) makeBlock(l *LedgerStoreImp, h int) *types.Block {
-	// one ONT transfer of 10^(h-1) from the bookkeeper account to B: the digits of B's balance tell
-	// which blocks have been applied to the state and how often.
-	amount := uint64(1)
-	for i := 1; i < h; i++ {
-		amount *= 10
-	}
-	sts := []*ont.TransferState{{From: w.acct.Address, To: w.addrB, Value: amount}}
+func (w *lcWorld) mkTransfer(to common.Address, amount uint64, nonce uint32) *types.Transaction {
+	sts := []*ont.TransferState{{From: w.acct.Address, To: to, Value: amount}}
 	code, err := cutils.BuildNativeInvokeCode(nutils.OntContractAddress, 0, "transfer", []interface{}{sts})
 	vhMust(err)
-	mtx := &types.MutableTransaction{GasPrice: 0, GasLimit: 30000, TxType: types.InvokeNeo, Nonce: uint32(1000 + h),
+	mtx := &types.MutableTransaction{GasPrice: 0, GasLimit: 30000, TxType: types.InvokeNeo, Nonce: nonce,
 		Payer: w.acct.Address, Payload: &payload.InvokeCode{Code: code}}
 	txHash := mtx.Hash()
 	sig, err := signature.Sign(w.acct, txHash.ToArray())
@@ -155,24 +152,37 @@ func (w *lcWorld) makeBlock(l *LedgerStoreImp, h int) *types.Block {
 	mtx.Sigs = []types.Sig{{PubKeys: []keypair.PublicKey{w.acct.PublicKey}, M: 1, SigData: [][]byte{sig}}}
 	tx, err := mtx.IntoImmutable()
 	vhMust(err)
-	txs := []*types.Transaction{tx}
-	for k := 0; k < w.rng.Intn(3); k++ {
+	return tx
+}
+
+func (w *lcWorld) makeBlock(l *LedgerStoreImp, h int) *types.Block {
+	// "xfer": one ONT transfer of 10^(h-1) from the bookkeeper account to B (the digits of B's balance tell
+	// which blocks have been applied to the state and how often) plus 0..2 random transfers;
+	// "empty": no transaction; "fail": one overdrawing transfer (fails, gas price 0: empty write set).
+	var txs []*types.Transaction
+	switch w.shapes[h-1] {
+	case "xfer":
+		amount := uint64(1)
+		for i := 1; i < h; i++ {
+			amount *= 10
+		}
+		txs = append(txs, w.mkTransfer(w.addrB, amount, uint32(1000+h)))
+		for k := 0; k < w.rng.Intn(3); k++ {
+			var to common.Address
+			for i := range to {
+				to[i] = byte(0xC0 + w.rng.Intn(3))
+			}
+			txs = append(txs, w.mkTransfer(to, uint64(1+w.rng.Intn(9))*100000000, uint32(5000+10*h+k)))
+		}
+	case "fail":
 		var to common.Address
 		for i := range to {
-			to[i] = byte(0xC0 + w.rng.Intn(3))
+			to[i] = 0xC5
 		}
-		sts := []*ont.TransferState{{From: w.acct.Address, To: to, Value: uint64(1+w.rng.Intn(9)) * 100000000}}
-		code, err := cutils.BuildNativeInvokeCode(nutils.OntContractAddress, 0, "transfer", []interface{}{sts})
-		vhMust(err)
-		m2 := &types.MutableTransaction{GasPrice: 0, GasLimit: 30000, TxType: types.InvokeNeo, Nonce: uint32(5000 + 10*h + k),
-			Payer: w.acct.Address, Payload: &payload.InvokeCode{Code: code}}
-		h2 := m2.Hash()
-		sg, err := signature.Sign(w.acct, h2.ToArray())
-		vhMust(err)
-		m2.Sigs = []types.Sig{{PubKeys: []keypair.PublicKey{w.acct.PublicKey}, M: 1, SigData: [][]byte{sg}}}
-		t2, err := m2.IntoImmutable()
-		vhMust(err)
-		txs = append(txs, t2)
+		txs = append(txs, w.mkTransfer(to, 2000000000, uint32(7000+h))) // more than the total supply
+	case "empty":
+	default:
+		panic("unknown shape " + w.shapes[h-1])
 	}
 	var hashes []common.Uint256
 	for _, t := range txs {
@@ -196,9 +206,9 @@ func (w *lcWorld) makeBlock(l *LedgerStoreImp, h int) *types.Block {
 	return block
 }
 
-func newLcWorld(maxH int) *lcWorld {
+func newLcWorld(maxH int, shapes []string) *lcWorld {
 	log.InitLog(4)
-	w := &lcWorld{maxH: maxH, crashEv: -1, rng: vhRand()}
+	w := &lcWorld{maxH: maxH, crashEv: -1, rng: vhRand(), shapes: shapes}
 	root, err := os.MkdirTemp(os.Getenv("VERIF_SCRATCH"), "lc")
 	vhMust(err)
 	w.root = root
@@ -228,6 +238,7 @@ func newLcWorld(maxH int) *lcWorld {
 	w.ref.hash = []common.Uint256{w.genesis.Hash()}
 	w.ref.balA = []uint64{w.ontBalance(r, w.acct.Address)}
 	w.ref.balB = []uint64{0}
+	w.ref.nEvents = []int{0}
 	for h := 1; h <= maxH; h++ {
 		b := w.makeBlock(r, h)
 		res, err := r.ExecuteBlock(b)
@@ -238,6 +249,11 @@ func newLcWorld(maxH int) *lcWorld {
 		w.ref.hash = append(w.ref.hash, b.Hash())
 		w.ref.balA = append(w.ref.balA, w.ontBalance(r, w.acct.Address))
 		w.ref.balB = append(w.ref.balB, w.ontBalance(r, w.addrB))
+		nev := -1
+		if ev, err := r.GetEventNotifyByBlock(uint32(h)); err == nil {
+			nev = len(ev)
+		}
+		w.ref.nEvents = append(w.ref.nEvents, nev)
 	}
 	w.ref.proofs = map[[2]int][]common.Uint256{}
 	for h := 0; h <= maxH; h++ {
@@ -279,6 +295,9 @@ func (w *lcWorld) project(l *LedgerStoreImp, o *lcObs) {
 	o.Applied = make([]int, w.maxH)
 	for h := 1; h <= w.maxH; h++ {
 		o.Applied[h-1] = int(bal % 10)
+		if w.shapes[h-1] != "xfer" {
+			o.Applied[h-1] = -1 // not observable through the balance
+		}
 		bal /= 10
 	}
 }
@@ -518,8 +537,13 @@ func (w *lcWorld) runPath(pi int, steps []lcAct, out *vhOut) {
 					fin.Err += fmt.Sprintf("%s: block hash %d differs;", stage, g)
 				}
 				if g > 0 {
-					if ev, err := w.ledger.GetEventNotifyByBlock(uint32(g)); err != nil || len(ev) != len(w.ref.blocks[g].Transactions) {
-						fin.Err += fmt.Sprintf("%s: events of block %d missing (%v);", stage, g, err)
+					nev := -1
+					ev, err := w.ledger.GetEventNotifyByBlock(uint32(g))
+					if err == nil {
+						nev = len(ev)
+					}
+					if nev != w.ref.nEvents[g] {
+						fin.Err += fmt.Sprintf("%s: events of block %d differ: %d, uncrashed ledger has %d (%v);", stage, g, nev, w.ref.nEvents[g], err)
 					}
 				}
 			}
@@ -554,7 +578,10 @@ func TestVerifLcReplay(t *testing.T) {
 	vhIn(&in)
 	out := vhOpenOut()
 	defer out.Close()
-	w := newLcWorld(in.MaxH)
+	if len(in.Shapes) != in.MaxH {
+		panic("shapes")
+	}
+	w := newLcWorld(in.MaxH, in.Shapes)
 	defer os.RemoveAll(w.root)
 	for pi, p := range in.Paths {
 		w.runPath(pi, p, out)
